@@ -83,6 +83,124 @@ type c11vOp struct {
 	// does not expire; revocations are dated at the moment they are built.
 	At int `json:"at,omitempty"`
 	Bits     []int  `json:"bits,omitempty"`
+	// vvp: a presentation signed by Presenter (holder member = Holder, "" absent) with the credentials Creds, verified with
+	// VerifyVP(vp, verifyVCs = !NoVerifyVCs, true, validAt). VPSig "bad": the proof names the presenter's key, another key signed.
+	Presenter   string       `json:"presenter,omitempty"`
+	Holder      string       `json:"holder,omitempty"`
+	Creds       []c11vVPCred `json:"creds,omitempty"`
+	NoVerifyVCs bool         `json:"noverifyvcs,omitempty"`
+	VPSig       string       `json:"vpsig,omitempty"`
+}
+
+// c11vVPCred: a NutsOrganizationCredential inside a presentation. Proof: "" (none: self-attested shape) | good | bad (other key signed)
+type c11vVPCred struct {
+	ID      string `json:"id"`
+	Issuer  string `json:"issuer"`
+	Subject string `json:"subject"`
+	Proof   string `json:"proof,omitempty"`
+}
+
+// c11vDIDRes resolves every DID (Verify with checkSignature only asks whether the issuer resolves)
+type c11vDIDRes struct{}
+
+func (c11vDIDRes) Resolve(id did.DID, _ *resolver.ResolveMetadata) (*did.Document, *resolver.DocumentMetadata, error) {
+	return &did.Document{ID: id}, &resolver.DocumentMetadata{}, nil
+}
+
+func (w *c11vWorld) signLD(doc map[string]interface{}, kid, signer string, created time.Time) (map[string]interface{}, error) {
+	ldProof := proof.NewLDProof(proof.ProofOptions{Created: created})
+	webSig := signature.JSONWebSignature2020{ContextLoader: w.ld.DocumentLoader(), Signer: w.keys}
+	ctx := context.WithValue(audit.TestContext(), c11vSignerKey{}, signer)
+	res, err := ldProof.Sign(ctx, doc, webSig, kid)
+	if err != nil {
+		return nil, err
+	}
+	b, _ := json.Marshal(res)
+	out := map[string]interface{}{}
+	err = json.Unmarshal(b, &out)
+	return out, err
+}
+
+func (w *c11vWorld) buildVP(op c11vOp) (*vc.VerifiablePresentation, error) {
+	other := func(d string) string {
+		if d == c11vA {
+			return c11vB
+		}
+		return c11vA
+	}
+	var creds []interface{}
+	for _, c := range op.Creds {
+		m := map[string]interface{}{
+			"@context":          []interface{}{vc.VCContextV1URI().String(), credential.NutsV1Context},
+			"type":              []interface{}{"VerifiableCredential", credential.NutsOrganizationCredentialType},
+			"id":                c.ID,
+			"issuer":            c.Issuer,
+			"issuanceDate":      time.Now().Add(-time.Hour).Format(time.RFC3339),
+			"credentialSubject": map[string]interface{}{"id": c.Subject, "organization": map[string]interface{}{"name": "Org", "city": "Town"}},
+		}
+		if c.Proof != "" {
+			signer := c.Issuer + "#k1"
+			if c.Proof == "bad" {
+				signer = other(c.Issuer) + "#k1"
+			}
+			signed, err := w.signLD(m, c.Issuer+"#k1", signer, time.Now().Add(-time.Hour))
+			if err != nil {
+				return nil, err
+			}
+			m = signed
+		}
+		creds = append(creds, m)
+	}
+	vp := map[string]interface{}{
+		"@context":             []interface{}{vc.VCContextV1URI().String(), signature.JSONWebSignature2020Context.String()},
+		"type":                 "VerifiablePresentation",
+		"id":                   op.Presenter + "#vp",
+		"verifiableCredential": creds,
+	}
+	if op.Holder != "" {
+		vp["holder"] = op.Holder
+	}
+	signer := op.Presenter + "#k1"
+	if op.VPSig == "bad" {
+		signer = other(op.Presenter) + "#k1"
+	}
+	signed, err := w.signLD(vp, op.Presenter+"#k1", signer, time.Now().Add(-50*time.Minute))
+	if err != nil {
+		return nil, err
+	}
+	b, _ := json.Marshal(signed)
+	return vc.ParseVerifiablePresentation(string(b))
+}
+
+func c11vVPClass(err error) string {
+	if err == nil {
+		return "ok"
+	}
+	msg := err.Error()
+	if strings.Contains(msg, "invalid VC (id=") {
+		switch {
+		case strings.Contains(msg, types.ErrRevoked.Error()):
+			return "revoked"
+		case strings.Contains(msg, types.ErrCredentialNotValidAtTime.Error()):
+			return "err:vc:not-valid-at-time"
+		case strings.Contains(msg, "invalid signature"), strings.Contains(msg, "missing proof"):
+			return "err:vc:signature"
+		case strings.Contains(msg, "credential ID must start with issuer"):
+			return "err:vc:validation"
+		}
+		return "err:vc:other:" + msg
+	}
+	switch {
+	case strings.Contains(msg, "not all VCs have the same credentialSubject.id"):
+		return "err:presenter"
+	case strings.Contains(msg, "credential(s) must be presented by subject"):
+		return "err:not-subject"
+	case strings.Contains(msg, "presentation holder must equal credential subject"):
+		return "err:holder"
+	case strings.Contains(msg, "invalid signature"), strings.Contains(msg, types.ErrPresentationNotValidAtTime.Error()):
+		return "err:vp-signature"
+	}
+	return "err:other:" + msg
 }
 
 // ---------- keys and resolvers
@@ -240,6 +358,7 @@ func (w *c11vWorld) reset() {
 	w.fstore = &c11vStore{Store: store}
 	w.v = NewVerifier(w.fstore, nil, w.keys, w.ld, trustConfig, sl).(*verifier)
 	sl.VerifySignature = c11vFakeVerifySignature // status lists of this harness carry a fake proof
+	w.v.didResolver = c11vDIDRes{}
 	w.hosts = map[string]c11vOp{}
 }
 
@@ -401,6 +520,24 @@ func (w *c11vWorld) exec(op c11vOp) (line string) {
 	case "vhost":
 		w.hosts[op.URL] = op
 		return "vhost"
+	case "vvp":
+		vp, err := w.buildVP(op)
+		if err != nil {
+			return "vvp err:build:" + err.Error()
+		}
+		var validAt *time.Time
+		if op.At != 0 {
+			t := time.Now().Add(time.Duration(op.At) * time.Minute)
+			validAt = &t
+		}
+		creds, err := w.v.VerifyVP(*vp, !op.NoVerifyVCs, true, validAt)
+		if err == nil {
+			return fmt.Sprintf("vvp ok n=%d", len(creds))
+		}
+		if creds != nil {
+			return "vvp credentials-returned-with-error"
+		}
+		return "vvp " + c11vVPClass(err)
 	}
 	return "bad-op:" + op.Op
 }
@@ -443,6 +580,48 @@ func (g *c11vGen) next() c11vOp {
 		for _, at := range [][]int{{-30, 30}, {-5, 0}, {-45, -120}, {100000, -30}}[r.Intn(4)] {
 			g.pending = append(g.pending, c11vOp{Op: "vverify", ID: op.Subject, Issuer: issuer, Kind: "other", At: at})
 		}
+	}
+	return op
+}
+
+// vp: a presentation of 1-3 credentials by A or B; `must` (if not empty) is the id of a credential that has to be among them
+func (g *c11vGen) vp(must string) c11vOp {
+	r := g.rng
+	p := c11vDIDs[r.Intn(2)]
+	op := c11vOp{Op: "vvp", Presenter: p, Holder: p}
+	n := 1 + r.Intn(3)
+	pos := r.Intn(n)
+	for j := 0; j < n; j++ {
+		issuer := c11vDIDs[r.Intn(2)]
+		c := c11vVPCred{ID: fmt.Sprintf("%s#%s", issuer, []string{"0", "1", "12", "123", "2"}[r.Intn(5)]), Issuer: issuer, Subject: p}
+		if j == pos && must != "" {
+			c.ID, c.Issuer = must, strings.Split(must, "#")[0]
+		}
+		if c.Issuer != p || r.Intn(3) == 0 {
+			c.Proof = "good" // not self-attested: the credential's own signature is checked
+		}
+		switch r.Intn(14) {
+		case 0:
+			c.Proof = "bad"
+		case 1:
+			c.Subject = c11vC // another subject than the presenter
+		case 2:
+			c.Issuer = map[string]string{c11vA: c11vB, c11vB: c11vA}[c.Issuer] // id not prefixed by the issuer: refused by the validator
+		}
+		op.Creds = append(op.Creds, c)
+	}
+	switch r.Intn(12) {
+	case 0:
+		op.Holder = ""
+	case 1:
+		op.Holder = c11vC
+	case 2:
+		op.VPSig = "bad"
+	case 3:
+		op.NoVerifyVCs = true
+	}
+	if r.Intn(2) == 0 {
+		op.At = []int{-100000, -120, -45, -30, -5, 5, 30}[r.Intn(7)]
 	}
 	return op
 }
@@ -492,6 +671,8 @@ func (g *c11vGen) choose() c11vOp {
 		return op
 	case k < 50:
 		return c11vOp{Op: "visrevoked", ID: g.credID()}
+	case k >= 94:
+		return g.vp("")
 	case k < 58:
 		url := []string{"https://lists.example/1", "https://lists.example/2"}[r.Intn(2)]
 		op := c11vOp{Op: "vhost", URL: url, HostKind: []string{"ok", "ok", "ok", "badsig", "fail"}[r.Intn(5)]}
